@@ -159,6 +159,15 @@ theorem specAbs_nm (n : List Char) (m al : Bool) (ts : List Tok) :
           simp [hk, this]
       · intro k; simp [specAbs, hla, Abs.add]
 
+/-- a hidden part, declaratively: no items, the bindings of `ts` -/
+theorem specAbs_hid (ts : List Tok) : specAbs [.hid ts] = { specAbs ts with toks := [] } := by
+  have hb : bindsL [.hid ts] = bindsL ts := by simp [bindsL, bindsT]
+  apply Abs.ext'
+  · simp [specAbs, specItems, stripTopL, Tok.stripTop]
+  · simp [specAbs, specKeys, boundNames, hb]
+  · intro k; simp [specAbs, occs, hb]
+  · intro k; simp [specAbs, listAll, hb]
+
 /-! ### the refinement, one level -/
 
 theorem prinv_empty : PRInv (emptyPR : NPR) := ⟨by simp [emptyPR, dkeys], by simp [emptyPR]⟩
@@ -176,6 +185,12 @@ theorem tokRes_ok : (t : Tok) → PRInv (tokRes t) ∧ abs (tokRes t) = specAbs 
     rw [tokRes]
     refine ⟨prinv_of_reinit _ _ _ _ _ h.1, ?_⟩
     rw [reinit_refines, h.2, merge_empty_left, specAbs_nm]
+  | .hid ts => by
+    have h := resGo_ok ts emptyPR prinv_empty
+    rw [tokRes]
+    unfold hide
+    refine ⟨prinv_fixDel h.1 _ _, ?_⟩
+    rw [abs_fixDel, h.2, merge_empty_left, specAbs_hid]
 /-- continuing a `+=` chain over `ts` = ONE merge with the declarative level of `ts` -/
 theorem resGo_ok : (ts : List Tok) → (acc : NPR) → PRInv acc →
     PRInv (resGo acc ts) ∧ abs (resGo acc ts) = (abs acc).merge (specAbs ts)
